@@ -911,6 +911,16 @@ def product_cases(full=True):
                                     ["checkout", T]]
                             out.append({"cls": cls, "state": st_on, "verify": False, "ops": ops,
                                         "tag": f"xfer:{change}/{'hl' if hardlink else 'cp'}/{'V' if verify else '-'}/{prior}"})
+    # one verifying add with several problematic sources in one batch, in every position
+    c1, c2, h1, h2 = [[3, ""], 4], [[2, ""], 5], [[4, ""], 4], [[0, ""], 0]
+    for cls in ("local", "base"):
+        for st_on in (False, True):
+            for batch in ([c1, c2], [c1, h1, c2], [c1, c2, h1], [h1, c1, c2], [h1, c1, h2, c2], [c2, c1, h1, h2]):
+                oidrefs = [it[0] for it in batch]
+                out.append({"cls": cls, "state": st_on, "verify": False,
+                            "ops": [["add", None, [[B, 1]]], ["add", True, batch], ["exist", oidrefs + [B]],
+                                    ["check", oidrefs[0]], ["check", oidrefs[-1]]],
+                            "tag": "batch:" + "".join("c" if it in (c1, c2) else "h" for it in batch)})
     # fault stream: removing the objects of one shard directory fails with PermissionError; a query
     # on a tampered object of that shard must still not serve it (any error is an acceptable refusal)
     DIRQ = [["t", T], ["b", B]]
